@@ -1,6 +1,7 @@
 package main
 
 import (
+	"encoding/json"
 	"flag"
 	"fmt"
 	"os"
@@ -21,6 +22,8 @@ func main() {
 		cmdCheck(os.Args[2:])
 	case "baseline":
 		cmdBaseline(os.Args[2:])
+	case "replay":
+		cmdReplay(os.Args[2:])
 	default:
 		fmt.Fprintln(os.Stderr, "unknown command", os.Args[1])
 		os.Exit(2)
@@ -101,3 +104,76 @@ func cmdFuncs(args []string) {
 	}
 }
 
+
+// cmdReplay re-runs a recorded counterexample against the real code in /repo (or $VERIF_REPO): the inputs stored
+// in the replay file are fed to the real function again and its postconditions are evaluated on the observed run.
+// Exit 1 when the violation reproduces, 0 when it does not, 2 when the file carries no concrete inputs.
+func cmdReplay(args []string) {
+	if len(args) < 1 {
+		fmt.Fprintln(os.Stderr, "usage: ergoverify replay <file>")
+		os.Exit(2)
+	}
+	data, err := os.ReadFile(args[0])
+	if err != nil {
+		fmt.Fprintln(os.Stderr, err)
+		os.Exit(2)
+	}
+	var rec struct {
+		Property   string        `json:"property"`
+		Obligation string        `json:"obligation"`
+		Clause     string        `json:"clause"`
+		Replay     *ReplayResult `json:"replay"`
+	}
+	if err := json.Unmarshal(data, &rec); err != nil {
+		fmt.Fprintln(os.Stderr, err)
+		os.Exit(2)
+	}
+	fmt.Printf("property %s, obligation %s\n  %s\n", rec.Property, rec.Obligation, rec.Clause)
+	if rec.Replay == nil || rec.Replay.Inputs == "" || !rec.Replay.Confirmed {
+		fmt.Println("this replay file carries no confirmed concrete input (no-failing-input-found); the solver output is in the file")
+		os.Exit(2)
+	}
+	repo := "/repo"
+	if r := os.Getenv("VERIF_REPO"); r != "" {
+		repo = r
+	}
+	eng, err := loadEngine(repo, filepath.Join(repo, "internal/ergo/verif_contracts.go"))
+	if err != nil {
+		fmt.Println("ENGINE-ERROR", err)
+		os.Exit(2)
+	}
+	fname := rec.Obligation
+	if i := strings.Index(fname, "/"); i > 0 {
+		fname = fname[:i]
+	}
+	fn, ok := eng.funcs[fname]
+	if !ok {
+		fmt.Println("function not found:", fname)
+		os.Exit(2)
+	}
+	var in []*spec
+	if err := json.Unmarshal([]byte(rec.Replay.Inputs), &in); err != nil {
+		fmt.Println("bad inputs:", err)
+		os.Exit(2)
+	}
+	scratch := scratchDir()
+	defer os.RemoveAll(scratch)
+	out, _, cmdline, logText := eng.runHarness(scratch, fn, in)
+	fmt.Println("ran:", cmdline)
+	if out == nil {
+		fmt.Println("replay run failed:", logText)
+		os.Exit(2)
+	}
+	if out.Panicked != "" {
+		fmt.Println("REPRODUCED: the real function panicked:", out.Panicked)
+		os.Exit(1)
+	}
+	failed, detail := eng.evalClausesConcrete(scratch, fn, in, out, "ensures")
+	fmt.Print(detail)
+	if len(failed) > 0 {
+		fmt.Println("REPRODUCED:", strings.Join(failed, ", "))
+		os.Exit(1)
+	}
+	fmt.Println("not reproduced on this tree")
+	os.Exit(0)
+}
